@@ -743,16 +743,38 @@ def monitor(ctx):
                 head = encode(boundary, parts).index(content)
                 # block sizes that put the CRLF before / after the content
                 # and the cut points on a block edge
-                blocks = sorted({0, 1 << 15, 4096, 8192, 65365,
-                                 head, head - 1, head + size,
-                                 head + size + 1, head + size + 2,
-                                 body_len + 1} - {-1})
-                blocks = [b for b in blocks if b >= 0]
+                blocks = [0, head + size + 1, 1 << 15, head - 1, 65365,
+                          head, head + size, head + size + 2, 4096, 8192,
+                          body_len + 1, 1]
                 if ctx.quick:
                     blocks = blocks[:5]
                 monitor_case(ctx, boundary, parts, True, True,
                              filename is not None, 0,
                              "large-%s" % shape, blocks=blocks)
+    # a file factory whose product is an io.BytesIO
+    for size in (BUFSIZE, BUFSIZE + 1, 3 * BUFSIZE):
+        content = (b"line\r\n" * (size // 6 + 1))[:size]
+        body = encode(b"BnD", [("f", "x.bin", None, content)])
+        calls = []
+
+        def bio_factory(filename, calls=calls):
+            calls.append(filename)
+            return io.BytesIO()
+        from poorwsgi.fieldstorage import FieldStorageParser
+        form = FieldStorageParser(io.BytesIO(body), headers_of(
+            content_type(b"BnD"), len(body)), file_callback=bio_factory
+            ).parse()
+        ctx.case(("bio-factory", size), True, None)
+        ctx.count("monitor:bytesio-factory")
+        if form.list[0].value != content:
+            ctx.violation("file-content-differs-bytesio-factory",
+                          {"size": size})
+        elif calls != ["x.bin"]:
+            ctx.violation("factory-recalled-when-product-is-bytesio", {
+                "content_size": size, "factory_calls": len(calls),
+                "note": "_write treats the factory's BytesIO like its own "
+                "in-memory buffer: past 8192 bytes every written line calls "
+                "make_file() again and copies the data"})
     # text fields whose 65536-byte cut falls inside / beside a character
     for lead in (MAXLINE - 2, MAXLINE - 1, MAXLINE):
         content = b"a" * lead + "\u00e9".encode() + b"tail"
